@@ -264,7 +264,18 @@ def run(ctx):
                     for x in v[2]:
                         lab = peel(x[2][0])
                         label = bytes.fromhex(lab[1]).decode('latin1') if isinstance(lab, tuple) and lab[0] == 'bytes' else '?'
-                        ents = [y for y in walk(x[2][1]) if isinstance(y, tuple) and y[0] == 'entry']
+                        label = label.strip().rstrip('=')       # the key may carry its separator and '=' (" ip_src=")
+                        ents = sorted(set(y for y in walk(x[2][1]) if isinstance(y, tuple) and y[0] == 'entry'), key=lambda y: len(short(y)))
+                        # one field of the ClientInfo is read (its Option is tested and unpacked: the reads share one field path)
+                        def fpath(y):
+                            p_, e_ = [], y[1]
+                            while isinstance(e_, tuple) and e_[0] in ('field', 'variant', 'deref'):
+                                if e_[0] == 'field' and e_[2] != '0':
+                                    p_.append(e_[2])
+                                e_ = e_[1]
+                            return tuple(reversed(p_)), e_
+                        if len(set(fpath(y) for y in ents)) == 1:
+                            ents = ents[:1]
                         path, e = [], (ents[0][1] if ents else None)
                         while isinstance(e, tuple) and e[0] in ('field', 'variant', 'deref'):
                             if e[0] == 'field' and e[2] != '0':
